@@ -285,4 +285,37 @@ def removeFirst : List (Data Rat) → Data Rat → Except Err (List (Data Rat))
       | .ok r => .ok (c :: r)
       | .error e => .error e
 
+/-! ### Exact equality: the special case in which `==` is an equivalence relation -/
+
+/-- Same class, same sampling points, *equal* values (irregular: label by label, whatever the order
+of the dictionaries — Python's `dict.__eq__`). -/
+def exactEq : Data Rat → Data Rat → Bool
+  | .dense g r, .dense g' r' => decide (g = g') && decide (r = r')
+  | .irreg x, .irreg y => eqBy id id x y
+  | _, _ => false
+
+/-! ### Operators of a multivariate object: the inherited *list* operators, not arithmetic
+
+`MultivariateFunctionalData` defines no arithmetic: `+` and `*` are `UserList.__add__` / `__mul__`
+(concatenation and repetition of the list of components, through the constructor), `==` is list equality. -/
+
+def allSameNobs : List (Data Rat) → Bool
+  | [] => true
+  | c :: t => t.all fun d => d.nObs == c.nObs
+
+/-- `mfd + other` (other: a multivariate object or a list of components). -/
+def mvAdd (cs ds : List (Data Rat)) : Except Err (List (Data Rat)) :=
+  if allSameNobs (cs ++ ds) then .ok (cs ++ ds) else .error .valueError
+
+/-- `mfd * k`, `k * mfd`. -/
+def mvMul (cs : List (Data Rat)) (k : Int) : Except Err (List (Data Rat)) :=
+  let r := (List.replicate k.toNat cs).flatten
+  if allSameNobs r then .ok r else .error .valueError
+
+/-- `mfd == other` (list equality: same number of components, pairwise `==`). -/
+def mvEq : List (Data Rat) → List (Data Rat) → Bool
+  | [], [] => true
+  | c :: cs, d :: ds => eq c d && mvEq cs ds
+  | _, _ => false
+
 end FDA.Arith
